@@ -1,7 +1,7 @@
 /-
 `holds C12 <op> <args…> | <impl answer>` — the executable statement of C12 (Holds/C12.lean) evaluated on the
 implementation's answer for the input the op line describes.  For the pure stdlib ops that carry no clause of
-their own (unquote, utf8, posix_join, dirname, copy_plan) the statement is agreement with the model definition
+their own (unquote, utf8, posix_join, dirname) the statement is agreement with the model definition
 the theorems are about.
 -/
 import HtmlVerif.Ops.Paths
@@ -63,7 +63,7 @@ def holdsC12 : OpTable
       pure (encBool (match asDict cfg d hh hd lp iv with | .error e' => e == e' | .ok _ => false))
     | none =>
       let scripts ← kvsList; let sheets ← kvsList; let _metas ← kvsList; let _head ← optStr
-      pure (encBool (holdsDict d lp iv scripts sheets))
+      pure (holdsDict d lp iv scripts sheets).enc
   | "as_html_tags" => some do
     let d ← depInfo; let hh ← bool; let hd ← nodes; let lp ← optStr; let iv ← bool
     expect "|"
@@ -71,16 +71,21 @@ def holdsC12 : OpTable
     | some e => pure (encBool (match asHtmlTags cfg d hh hd lp iv with | .error e' => e == e' | .ok _ => false))
     | none =>
       let tags ← nodes
-      pure (encBool (holdsTags d lp iv tags))
+      pure (holdsTags d lp iv tags).enc
   | "copy_to" => some do
     let d ← depInfo; let path ← str; let iv ← bool; let _cwd ← str; let fs ← fsP
     expect "|"
     let st ← statusP
     let fs' ← fsCanonP
     pure (encBool (holdsCopy d path iv fs st fs'))
-  | "copy_plan" => some do
+  | "copy_atomic" => some do
     let d ← depInfo; let path ← str; let iv ← bool; let _cwd ← str; let fs ← fsP
-    sameAs (copyPlan d path iv fs)
+    expect "|"
+    match (← statusP) with
+    | none => pure (encBool (holdsAtomic d path iv fs false true))
+    | some _ =>
+      let t ← next
+      pure (encBool (holdsAtomic d path iv fs true (t == "same")))
   | "save_html" => some do
     let _recv ← next; let _content ← nodes; let file ← str; let fileAbs ← str; let libdir ← optStr
     let iv ← bool; let _cwd ← str; let html ← str; let deps ← depList; let fs ← fsP
@@ -90,7 +95,7 @@ def holdsC12 : OpTable
       else do let k ← next; pure (.error (errOfString k)))
     let urls ← listOf str
     let fs' ← fsCanonP
-    pure (encBool (holdsSave deps file fileAbs libdir iv html fs status urls fs'))
+    pure (holdsSave deps file fileAbs libdir iv html fs status urls fs').enc
   | _ => none
 
 end HtmlVerif.Ops
